@@ -895,6 +895,11 @@ func (it *oInterp) analyze(fn *ssa.Function, args []*OV, in *OState, site ssa.In
 				tv := newOV()
 				for i, rv := range retOperands(r) {
 					v := it.get(env, rv)
+					if st.eq == 1 {
+						// returned on a path where both layouts coincide: hand out the stand-ins, so that the
+						// join with the other returns does not mix this array's layout on the other paths in
+						v = it.refineOV(v, st, true)
+					}
 					if !v.isEmpty() {
 						tv.ensure(fmt.Sprintf(".%d", i)).join(v)
 					}
@@ -1949,16 +1954,31 @@ func loopContains(h, s *ssa.BasicBlock) bool {
 	if s == h {
 		return true
 	}
-	if !h.Dominates(s) {
-		return false
+	return naturalLoop(h)[s]
+}
+
+// naturalLoop: the blocks of the natural loop headed at h - h itself and every
+// block from which a latch of h can be reached without passing through h.
+// (A block after an inner loop can reach that loop's latch again through the
+// enclosing loop's back edge; it is not part of the inner loop.)
+func naturalLoop(h *ssa.BasicBlock) map[*ssa.BasicBlock]bool {
+	body := map[*ssa.BasicBlock]bool{}
+	ls := latches(h)
+	if len(ls) == 0 {
+		return body
 	}
-	reach := reachableBlocks([]*ssa.BasicBlock{s})
-	for _, l := range latches(h) {
-		if l == s || reach[l] {
-			return true
+	body[h] = true
+	work := append([]*ssa.BasicBlock{}, ls...)
+	for len(work) > 0 {
+		b := work[len(work)-1]
+		work = work[:len(work)-1]
+		if body[b] {
+			continue
 		}
+		body[b] = true
+		work = append(work, b.Preds...)
 	}
-	return false
+	return body
 }
 
 // loopConversions lists the arrays that the loop headed at h rewrites element
